@@ -1310,7 +1310,12 @@ class DiskRefsContainer(RefsContainer):
         f = GitFile(filename, "wb")
         try:
             f.write(SYMREF + other + b"\n")
-            sha = self.follow(name)[-1]
+            try:
+                sha = self.follow(name)[-1]
+            except SymrefLoop:
+                # The current value (only wanted for the reflog) loops;
+                # re-pointing the ref is how such a loop gets repaired.
+                sha = None
             self._log(
                 name,
                 sha,
